@@ -29,8 +29,8 @@ func rawtext(s string, trimBefore, trimAfter bool) []byte {
 	var (
 		spaces         = 0
 		seenNewline    = trimBefore
-		lastChar       rune
-		charBeforeTrim rune
+		lastChar       rune = -1 // -1: no character yet (start of the text)
+		charBeforeTrim rune = -1
 		result         = make([]byte, len(s))
 		resultLen      = 0
 	)
@@ -102,7 +102,7 @@ func rawtext(s string, trimBefore, trimAfter bool) []byte {
 
 func isTightJoiner(r rune) bool {
 	switch r {
-	case 0, '<', '>':
+	case -1, '<', '>':
 		return true
 	}
 	return false
